@@ -315,6 +315,16 @@ pub fn run(ctx: &Ctx) -> CheckResult {
         jobs.push((Cfg::p3(Kind::Macd, n, n + 2, 2), bar_ops.clone(), db - 1));
         jobs.push((Cfg::p3(Kind::Ppo, n, n + 2, 2), bar_ops.clone(), db - 1));
     }
+    // unvalidated bars (close outside [low, high], high < low, zero / negative fields): the wiring of a
+    // composite from its parts does not depend on the bar being well-formed
+    let free_ops = b_ops(&b_free());
+    for &n in &[1usize, 2, 3, 5] {
+        jobs.push((Cfg::p2(Kind::SlowStoch, n, 3), free_ops.clone(), db - 1));
+        jobs.push((Cfg::pm(Kind::Kc, n, 2.0), free_ops.clone(), db - 1));
+        jobs.push((Cfg::pm(Kind::Ce, n, 3.0), free_ops.clone(), db - 1));
+        jobs.push((Cfg::p1(Kind::Atr, n), free_ops.clone(), db - 1));
+        jobs.push((Cfg::p1(Kind::Cci, n), free_ops.clone(), db - 1));
+    }
     // the same composites in a tiny price unit (2^-60): absolute epsilons / thresholds in a composite or a part show here
     let tiny_s = s_ops(&S_TINY);
     let tiny_b = b_ops(&scale_bars(&b_grid(), TINY));
@@ -369,6 +379,6 @@ pub fn run(ctx: &Ctx) -> CheckResult {
     }
     res.extra.insert("composite_configurations".into(), json!(jobs.len()));
     res.rule = "case = (composite configuration, stream): the real composite and separately constructed public parts (SMA, SD, EMA, FastStochastic, TrueRange, ATR, Minimum, Maximum, MAD) are fed the same stream; at every step the composite's outputs must equal the documented combination of the parts within tau(t)*M (variances for the Bollinger half-width, times the condition number for CCI/PPO, gated at 1e6); non-trivial = stream longer than the window".into();
-    res.bounds = format!("BB/KC/CE periods {singles:?} x multipliers {{2,0,0.5,3}}, ATR, CCI, SLOW_STOCH (n x {{1,3}}), MACD/PPO over 6 period triples; all 9^{ds} mixed-sign/rough scalar streams and all 10^{db} valid-bar streams (BB, MACD and PPO are driven with bars as well as scalars; streams with reset(), composite and parts reset together) (side multipliers 1-2 levels shallower); the positive scalar / bar alphabets in a 2^-60 price unit for periods {{1,2,3,5}}");
+    res.bounds = format!("BB/KC/CE periods {singles:?} x multipliers {{2,0,0.5,3}}, ATR, CCI, SLOW_STOCH (n x {{1,3}}), MACD/PPO over 6 period triples; all 9^{ds} mixed-sign/rough scalar streams and all 10^{db} valid-bar streams, all 10^(depth-1) streams of unvalidated bars for SLOW_STOCH/KC/CE/ATR/CCI (BB, MACD and PPO are driven with bars as well as scalars; streams with reset(), composite and parts reset together) (side multipliers 1-2 levels shallower); the positive scalar / bar alphabets in a 2^-60 price unit for periods {{1,2,3,5}}");
     res
 }
